@@ -349,6 +349,31 @@ func runC05(r *simkit.Run) {
 				r.Fail("", "", "")
 			}
 			want := w.refKey(id)
+			// hostile traffic can leave a node busy for a bounded time (a key-share message that
+			// its own validator refuses is retried 4 times at >= 200 ms; meanwhile the trigger
+			// channel and with it the message loop wait): give the fake clock up to 20 s
+			for wait := 0; wait < 80; wait++ {
+				missing := false
+				for ni, nd := range w.nodes {
+					if t == 1 && ni == 0 {
+						continue
+					}
+					if _, ok := nd.storedKeys()[string(id)]; !ok {
+						missing = true
+					}
+				}
+				if !missing {
+					break
+				}
+				w.s.Idle(250 * time.Millisecond)
+				if !w.run(400000) {
+					r.Fail("hang", w.fl.String()+"/recovery", "honest round after the attack did not finish")
+				}
+				if r.Failed() {
+					r.Fail("", "", "")
+				}
+				r.Probe("recovery-waited-for-timers")
+			}
 			for ni, nd := range w.nodes {
 				if t == 1 && ni == 0 {
 					continue // sole triggered keyper (see C03)
